@@ -144,9 +144,18 @@ def _encode_ber(hist):
     return toks
 
 
+def _realcode(t):
+    """complex-form binary data (re, im in {0,1}) -> real symbols 2*re+im: entries differ iff the codes differ by >= 1"""
+    return 2 * t.real + t.imag if t.is_complex() else t
+
+
+def _decomplex(hist):
+    return [(op[0], _realcode(op[1]), _realcode(op[2])) if op[0] in ("u", "f") else op for op in hist]
+
+
 def _encode_bler(hist):
     toks = []
-    for op in hist:
+    for op in _decomplex(hist):
         if op[0] in ("u", "f"):
             toks.append("%s|%s|%s" % (op[0], _rows(op[1]), _rows(op[2])))
         else:
@@ -232,6 +241,15 @@ def _gen(ctx):
         yield "bler", bs, [("u", rows(2, 5), rows(2, 5)), ("c",), ("u", rows(2, 7), rows(2, 7)), ("c",)]
         z = torch.tensor([[[1., 0.], [0., 1.], [1., 1.]], [[0., 0.], [1., 0.], [1., 1.]]])
         yield "bler", bs, [("u", z, 1 - z), ("u", z, z.clone()), ("c",)]
+        # complex-form symbols (re, im in {0,1}): a symbol differs when either part differs
+        cx = torch.complex(rows(2, 4), rows(2, 4))
+        for part in (0, 1):
+            for i in range(4):
+                d = torch.zeros(2, 4); d[i % 2, i] = 1.0
+                cy = torch.complex((cx.real + d) % 2, cx.imag) if part == 0 else torch.complex(cx.real, (cx.imag + d) % 2)
+                yield "bler", bs, [("f", cx, cy), ("f", cy, cx), ("u", cx[:1], cy[:1]), ("u", cx[1:], cy[1:]), ("c",)]
+        cy = torch.complex(rows(2, 4), rows(2, 4))
+        yield "bler", bs, [("f", cx, cy), ("u", cx, cy), ("u", cx, cx.clone()), ("c",), ("r",), ("c",)]
     # ---- StandardMetrics twins
     for _ in range(60 if ctx.thorough else 25):
         n = rng.choice([4, 6, 8, 9, 12, 15, 16])
@@ -298,7 +316,7 @@ def _refcheck(kind, param, hist, impl):
     if kind == "ber":
         return _agrees(impl, _ref(hist, "ber", thr=param))
     if kind == "bler":
-        return _agrees(impl, _ref(hist, "bler", bs=param, thr=0.0))
+        return _agrees(impl, _ref(_decomplex(hist), "bler", bs=param, thr=0.0))
     x, y = hist[0][1], hist[0][2]
     if kind == "sber":
         n = x.numel()
